@@ -58,6 +58,8 @@ def generate(tier, seed, work, stats):
         cases.append(dict(prods=prods, vpool="upper", tpool="ab", family="directed"))
     for prods in c08.random_grammars(1500 if tier == "quick" else 20000, seed + 15, maxp=5, maxb=3):
         cases.append(dict(prods=prods, vpool="upper", tpool="ab", family="random", clash=True))
+        if len(cases) % 4 == 0:     # all parsers on grammars whose variables carry the values of the terminals
+            cases.append(dict(prods=prods, vpool="clash", tpool="ab", family="random-clash"))
     for prods in CLASH_DIRECTED:
         cases.append(dict(prods=prods, vpool="upper", tpool="ab", family="directed-clash", clash=True))
     for c in cases:
